@@ -55,12 +55,48 @@ def ref_traj(rho_m, rkey, obs):
     return res
 
 
-def check_one(N, gs0, ps0, r0, obs, where, viol, item):
+def _snap(x):
+    return (np.array(x.gs).astype(np.int64).tobytes(), (np.array(x.ps).astype(np.int64) % 4).tobytes(), int(getattr(x, 'r', -1)))
+
+
+def mk_operand(obs, form, N):
+    """The observable list handed to measure() in one of the accepted forms; returns (O, keep) where
+    keep = objects whose arrays must be unchanged afterwards."""
+    gl = [list(g) for g, p in obs]
+    pl = [p for g, p in obs]
+    if form == 'list':
+        O = lib.PL(gl, pl)
+        return O, [O]
+    if form == 'fortran':
+        O = lib.pc.PauliList(np.asfortranarray(np.array(gl, dtype=lib.INT)), np.array(pl, dtype=lib.INT))
+        return O, [O]
+    if form in ('view', 'view-rev'):
+        junk = [1] * (2 * N)
+        rows, phs = [junk], [2]
+        for g, p in zip(gl, pl):
+            rows += [g, junk]
+            phs += [p, 2]
+        big = lib.PL(rows, phs)
+        if form == 'view':
+            O = big[1::2]
+        else:
+            rb = lib.PL(rows[::-1], phs[::-1])
+            big = rb
+            O = lib.pc.PauliList(rb.gs[::-1][1::2], rb.ps[::-1][1::2])
+        return O, [O, big]
+    raise ValueError(form)
+
+
+def check_one(N, gs0, ps0, r0, obs, where, viol, item, form='list', operand=None):
     """Explore the coin tree of one (state, list); returns (#runs, nontrivial?)."""
     rho0 = stab.rho_of(gs0, ps0, r0)
     rkey = ref.rho_key(rho0)
     nrand, expect = ref_traj(rho0, rkey, obs)
-    O = lib.PL([list(g) for g, p in obs], [p for g, p in obs])
+    if operand is not None:
+        O, keep = operand, [operand]
+    else:
+        O, keep = mk_operand(obs, form, N)
+    before = [_snap(x) for x in keep]
     kind = 'pure' if r0 == 0 else 'mixed'
     label = [ref.g_to_str(np.array(g), p) for g, p in obs]
 
@@ -120,6 +156,9 @@ def check_one(N, gs0, ps0, r0, obs, where, viol, item):
                 desc, np.asarray(out2).tolist(), lp2, c2, out)))
         elif ref.rho_key(stab.rho_of(st.gs, st.ps, st.r)) != pkey:
             viol.append(V('C06/%s/repeat-state/%s' % (where, kind), item, '%s: repetition changed the state' % desc))
+    if [_snap(x) for x in keep] != before:
+        viol.append(V('C06/%s/operand-changed/%s' % (where, kind), item, 'measure(%s) on %s changed the arrays of its observable argument (form %s)' % (
+            label, stab.describe(gs0, ps0, r0), form if operand is None else type(operand).__name__)))
     if len(seen) != len(expect) and len(seen) + 0 < len(expect):
         missing = sorted(set(expect) - set(seen))
         viol.append(V('C06/%s/outcome-unreachable/%s' % (where, kind), item, 'measure(%s) on %s: outcomes %s have probability > 0 but no coin string produces them' % (
@@ -263,6 +302,67 @@ def fn_n3(items):
     return {'n': n, 'nt': nt, 'viol': viol}
 
 
+def _pool(N, tier, seed):
+    """Concrete tableaux used by the operand-form leg: N<=2 one per density matrix, N=3 a stride of the BFS set."""
+    if N == 3:
+        budget = 402 if tier == 'quick' else 4002
+        if budget not in _N3:
+            _N3[budget] = _n3_states(budget, 0)
+        step = 13 if tier == 'quick' else 29
+        return _N3[budget][seed % step::step]
+    T = stab.tableaux(N)
+    return [T[i] for i in (range(len(T)) if N == 1 else stab.representatives(N, seed))]
+
+
+def fn_forms(items):
+    """item = [tier, seed, N, i]: i-th pool state; the observables are handed over (a) as the active stabilizers
+    of every pool state given as a StabilizerState operand, (b) as the state itself / its own .stabilizers,
+    (c) all L=1 lists and a stride of the L=2 lists as step-slice views, reversed views and Fortran arrays.
+    Same oracle as the main sweep + the operand must be unchanged."""
+    n = nt = 0
+    viol = []
+    for tier, seed, N, i in items:
+        pool = _pool(N, tier, seed)
+        gs0, ps0, r0 = pool[i]
+        item = [tier, seed, N, i]
+        for j, (gs1, ps1, r1) in enumerate(pool):
+            if r1 == N:
+                continue
+            obs = tuple((tuple(int(x) for x in gs1[a]), int(ps1[a]) % 4) for a in range(r1, N))
+            runs, nontriv = check_one(N, gs0, ps0, r0, obs, 'forms/N%d/StabilizerState-operand' % N, viol, item, operand=lib.ST(gs1, ps1, r1))
+            n += runs
+            nt += int(nontriv)
+        if r0 < N:
+            # the state measured against itself: determined outcomes 0, no coin, state unchanged
+            own = tuple((tuple(int(x) for x in gs0[a]), int(ps0[a]) % 4) for a in range(r0, N))
+            for how in ('self', 'self.stabilizers', 'copy'):
+                st = lib.ST(gs0, ps0, r0)
+                arg = st if how == 'self' else (st.stabilizers if how == 'self.stabilizers' else st.copy())
+                rng.script((1, 1, 1, 1), None)
+                try:
+                    out, lp = st.measure(arg)
+                except Exception as e:
+                    viol.append(V('C06/forms/N%d/%s/raises-%s' % (N, how, type(e).__name__), item, 'st.measure(%s) on %s raised %s' % (how, stab.describe(gs0, ps0, r0), e)))
+                    continue
+                n += 1
+                nt += 1
+                c = rng.consumed()[0]
+                if [int(o) for o in np.asarray(out).tolist()] != [0] * (N - r0) or abs(float(lp)) > 1e-12 or c != 0:
+                    viol.append(V('C06/forms/N%d/%s/outcome' % (N, how), item, 'st.measure(%s) on %s returned out=%s log2prob=%r coins=%d; its own stabilizers have outcome 0 with certainty' % (
+                        how, stab.describe(gs0, ps0, r0), np.asarray(out).tolist(), lp, c)))
+                elif stab.state_check(st, N) or ref.rho_key(stab.rho_of(st.gs, st.ps, st.r)) != ref.rho_key(stab.rho_of(gs0, ps0, r0)):
+                    viol.append(V('C06/forms/N%d/%s/state-changed' % (N, how), item, 'st.measure(%s) on %s changed the state to %s' % (
+                        how, stab.describe(gs0, ps0, r0), stab.describe(st.gs, st.ps, int(st.r)))))
+        l1 = lists(N, 1)
+        l2 = lists(N, 2) if N <= 2 else []
+        for form in ('view', 'view-rev', 'fortran'):
+            for obs in l1 + l2[(i + seed) % 5::5]:
+                runs, nontriv = check_one(N, gs0, ps0, r0, obs, 'forms/N%d/%s' % (N, form), viol, item, form=form)
+                n += runs
+                nt += int(nontriv)
+    return {'n': n, 'nt': nt, 'viol': viol}
+
+
 def legs(tier):
     out = []
     seed = 0
@@ -275,6 +375,10 @@ def legs(tier):
     out.append(Leg('N1_L2', fn_sweep, [[1, i, 2] for i in range(48)], chunk=6, src_states=48, bound='all 48 tableaux x all commuting signed pairs x coin tree'))
     out.append(Leg('N2_L1', fn_sweep, [[2, i, 1] for i in range(34560)], chunk=60, src_states=34560,
                    bound='all 34560 tableaux x all 32 signed observables (incl. +-I) x coin tree'))
+    fitems = [[tier, seed, N, i] for N in (1, 2, 3) for i in range(len(_pool(N, tier, seed)))]
+    out.append(Leg('operand_forms', fn_forms, fitems, chunk=2, src_states=len(fitems), exhaustive=False, supplementary=True,
+                   bound='48 / 91 / %d pool tableaux (N=1 all, N=2 one per density matrix, N=3 stride of the BFS set) x observables given as (a) every pool state as a StabilizerState operand, '
+                         '(b) the state itself, its .stabilizers, its copy, (c) all L=1 lists and 1/5 of the L=2 lists as step-slice view, reversed view, Fortran array; full coin tree; operand unchanged afterwards' % len(_pool(3, tier, seed))))
     if tier == 'quick':
         reps = stab.representatives(2, seed)
         out.append(Leg('N2_L2_reps', fn_sweep, [[2, i, 2] for i in reps], chunk=2, src_states=len(reps),
